@@ -507,6 +507,50 @@ func runC16(c *Ctx) {
 		c.Ob("C16-R7", "indexedLogs returns the session's error when the match channel is closed", c.FnPos(il), nErr >= 1, fmt.Sprintf("%d returns hand back session.Error()", nErr))
 	})
 	c.Min("C16-R7", 2)
+
+	c.Rule("C16-R8", "the criteria handed to the bloom-bits matcher are the query's criteria: one freshly allocated clause per position", func() {
+		// the matcher keeps the clause slices; a scratch slice reused across positions makes earlier positions alias later
+		// ones, so the index answers a different (narrower) query than the exact post-filter
+		nf := c.Fn("aqua/filters:New")
+		vcN := newValueClasses(nf)
+		nApp := 0
+		for _, cs := range callSites(nf, `^bloombits\.NewMatcher$`) {
+			arg := stripConvAll(cs.Common().Args[len(cs.Common().Args)-1])
+			for _, b := range nf.Blocks {
+				for _, ins := range b.Instrs {
+					call, isCall := ins.(*ssa.Call)
+					if !isCall {
+						continue
+					}
+					bi, isB := call.Call.Value.(*ssa.Builtin)
+					if !isB || bi.Name() != "append" || !vcN.same(call, arg) {
+						continue
+					}
+					nApp++
+					ok, what := false, c.termOf(nf, call.Call.Args[1])
+					if sl, isSl := call.Call.Args[1].(*ssa.Slice); isSl {
+						if al, isAl := sl.X.(*ssa.Alloc); isAl {
+							ok = true
+							for _, r := range *al.Referrers() {
+								if ia, isIA := r.(*ssa.IndexAddr); isIA {
+									for _, rr := range *ia.Referrers() {
+										if st, isSt := rr.(*ssa.Store); isSt {
+											if _, fresh := st.Val.(*ssa.MakeSlice); !fresh {
+												ok, what = false, c.termOf(nf, st.Val)
+											}
+										}
+									}
+								}
+							}
+						}
+					}
+					c.Ob("C16-R8", "filters.New appends a clause allocated for that position (make) to the matcher's criteria", c.Position(call.Pos()), ok, "appended: "+what)
+				}
+			}
+		}
+		c.Ob("C16-R8", "filters.New builds the matcher criteria from addresses and topics", c.FnPos(nf), nApp == 2, fmt.Sprintf("%d appends", nApp))
+	})
+	c.Min("C16-R8", 3)
 }
 
 func regexpQuote(s string) string {
